@@ -87,6 +87,12 @@ pub fn main() {
         if line.trim().is_empty() {
             continue;
         }
+        if line.trim() == "@datetime-limits" {
+            // `@datetime-limits`: the range constants of the date-time library (hook datetime_limits)
+            let (lo, hi, hi_ns, span) = numbat::verif::misc::datetime_limits();
+            writeln!(w, "LIMITS:{lo}:{hi}:{hi_ns}:{span}").unwrap();
+            continue;
+        }
         let src = line.replace('\u{23ce}', "\n");
         let out = if let Some(rest) = src.strip_prefix('!') {
             run_source(&mut base, rest)
